@@ -26,6 +26,7 @@ import DvcData.Model.PushFetch
 import DvcData.Model.Conc
 import DvcData.Model.StoreLayout
 import DvcData.Model.IndexUpdate
+import DvcData.Model.StorageMap
 open Lean DvcData
 
 /-! Line-protocol driver: one JSON request per line on stdin, one JSON answer per line on stdout.
@@ -416,6 +417,23 @@ def opStoreLayout (j : Lean.Json) : Except String Lean.Json := do
   pure (Lean.Json.mkObj [
     ("oids", Lean.Json.arr ((StoreLayout.listOids files).map fun o => Lean.Json.str (String.ofList o)).toArray),
     ("after_gc", Lean.Json.arr ((StoreLayout.afterGc files keep).map pathTo).toArray)])
+
+/-- `StorageMapping` after a sequence of `add_*` calls: what each probe key resolves to, per role -/
+def opStorageMap (j : Lean.Json) : Except String Lean.Json := do
+  let roleOf (s : String) : Except String PushFetch.Role :=
+    match s with | "data" => pure .data | "cache" => pure .cache | "remote" => pure .remote | _ => throw "storage_map: role"
+  let keyOf (a : Lean.Json) : Except String Path.Key := do
+    (← a.getArr?).toList.mapM fun p => do pure (← p.getStr?).toList
+  let decls ← (← arr j "decls").toList.mapM fun d => do
+    pure ({ pfx := ← keyOf (← d.getArrVal? 0), role := ← roleOf (← (← d.getArrVal? 1).getStr?),
+            store := ← (← d.getArrVal? 2).getStr? } : PushFetch.Decl)
+  let probes ← (← arr j "probes").toList.mapM keyOf
+  let m := PushFetch.build decls
+  let optTo (o : Option String) : Lean.Json := match o with | some x => .str x | none => .null
+  pure (Lean.Json.mkObj [("resolved", Lean.Json.arr (probes.map fun k =>
+    match PushFetch.resolve m k with
+    | none => Lean.Json.null
+    | some i => Lean.Json.mkObj [("data", optTo i.data), ("cache", optTo i.cache), ("remote", optTo i.remote)]).toArray)])
 
 /-- several `build()` calls for one store (each with its own reference table), then transfers out of them, against the
     workspace as it is at transfer time: the file objects the store holds afterwards (oid, md5 of the bytes filed under it) -/
@@ -877,6 +895,7 @@ def dispatch (j : Json) : Except String Json := do
   | "index_diff" => opIndexDiff j
   | "diff_entry" => opDiffEntry j
   | "index_save" => opIndexSave j
+  | "storage_map" => opStorageMap j
   | "index_update" => opIndexUpdate j
   | "store_layout" => opStoreLayout j
   | "staging" => opStaging j
